@@ -417,6 +417,7 @@ where
         self.cache.clear();
         self.deques.clear();
         self.weighted_size = 0;
+        self.entry_count = 0;
     }
 
     /// Discards cached values that satisfy a predicate.
